@@ -60,6 +60,7 @@ class Ctx(object):
         self.rng = random.Random((seed * 1000003) ^ (shard * 7919 + 17))
         self.counters = {}
         self.monitors = {}
+        self._later = {}
         self.evaluations = 0
         self.distinct = set()
         self.distinct_enum = 0
@@ -94,6 +95,35 @@ class Ctx(object):
 
     def hit(self, monitor, n=1):
         self.monitors[monitor] = self.monitors.get(monitor, 0) + n
+
+    def later(self, name, probe, what='object'):
+        '''
+        Objects of an earlier case stay alive while the next case runs in the same process. *probe* is a
+        function without arguments that observes such an object (e.g. serializes a metamodel); it is
+        evaluated now, and evaluated again - and compared - when the next probe with the same *name*
+        is registered. State kept in module or class level by the library (caches, shared default
+        containers) shows as an earlier object that changed although nobody touched it.
+        '''
+        prev = self._later.get(name)
+        if prev is not None:
+            old_probe, old_value, old_what = prev
+            self.hit('EarlierObject.rechecked')
+            try:
+                now = old_probe()
+            except Exception as e:                      # noqa
+                now = 'raised %s: %s' % (type(e).__name__, str(e)[:200])
+            if now != old_value:
+                self.violation('earlier-object-changed/%s' % name,
+                               'the %s of the previous case was observed again after this case ran in the same '
+                               'process and differs:\n--- before\n%s\n--- now\n%s'
+                               % (old_what, str(old_value)[:1500], str(now)[:1500]),
+                               case=dict(name=name))
+        try:
+            value = probe()
+        except Exception:                                # noqa
+            self._later.pop(name, None)
+            return
+        self._later[name] = (probe, value, what)
 
     def case(self, canon, nontrivial=True, sample=None):
         '''
